@@ -35,6 +35,7 @@ const (
 	fLrOptID   = "F50-leafref-options-swallow"
 	fWKeyID    = "F51-wrapper-union-key-identity"
 	fLLZeroID  = "F52-leafref-leaflist-zero-member"
+	fLrStarID  = "F92-leafref-predicate-star-operand"
 )
 
 // ---- Validate plumbing -------------------------------------------------------------------------------
@@ -531,6 +532,35 @@ func witnessF52(rec *ev.Rec) {
 		e2 := validate(model.Build(root))
 		if e1 == nil && e2 != nil {
 			return true, `vtu /top/keyed/k-str[k="a"], /top/refs/many = ["a",""] (leaf-list of leafref to k-str/k): Validate() = nil; with ["a","b"] it reports the dangling member`
+		}
+		return false, ""
+	})
+}
+
+// witnessF92: the operand of a leafref predicate holds the string "*": ygot turns the predicate into a
+// gNMI path key and resolves it with wildcards enabled, so the predicate selects every entry.
+func witnessF92(rec *ev.Rec) {
+	rec.Witness(fLrStarID, func() (bool, string) {
+		_, root, top := vt("vtu")
+		k := child(top, "Keyed")
+		mk2 := mustField(k, "Mk2")
+		ex := model.NewEntry(mk2, []model.Val{str("x"), {K: model.KUint32, U: 1}})
+		sub := mustField(ex.N, "Sub")
+		ex.N.List["Sub"] = []*model.Entry{model.NewEntry(sub, []model.Val{{K: model.KInt16, I: 7}})}
+		es := model.NewEntry(mk2, []model.Val{str("*"), {K: model.KUint32, U: 2}})
+		k.List["Mk2"] = []*model.Entry{ex, es}
+		refs := child(top, "Refs")
+		refs.Leaf["PickA"] = str("*")
+		refs.Leaf["PickSub"] = model.Val{K: model.KInt16, I: 7}
+		if d := model.Dangling(root); len(d) != 1 {
+			return false, fmt.Sprintf("HARNESS-BUG: reference evaluator finds %v", d)
+		}
+		e1 := validate(model.Build(root))
+		// control: the same tree with the operand "y" (no such entry) must be reported
+		es.Key[0], es.N.Leaf["A"], refs.Leaf["PickA"] = str("y"), str("y"), str("y")
+		e2 := validate(model.Build(root))
+		if e1 == nil && e2 != nil {
+			return true, `vtu mk2[a="x",b=1]/sub[id=7], mk2[a="*",b=2] without subs, refs/pick-a = "*", refs/pick-sub = 7 (path mk2[a=current()/../pick-a]/sub/id): Validate() = nil although mk2[a="*"] has no sub; with "y" in place of "*" the dangling reference is reported`
 		}
 		return false, ""
 	})
